@@ -523,6 +523,19 @@ def reverse_shapes(max_n=3):
             for target in names:
                 out['rev%d[%s]->%s' % (n, tag, target)] = (
                     {'type': 'reverse', 'tasks': tasks}, target)
+            # the same graph with a requirement coming from task-defaults
+            # (every task but the named one requires it in addition)
+            if n >= 2:
+                for dflt in names[:2]:
+                    # must stay acyclic: the default requirement itself
+                    # requires nothing
+                    if tasks[dflt].get('requires'):
+                        continue
+                    for target in names:
+                        out['rev%d[%s]+td%s->%s' % (n, tag, dflt[1:],
+                                                    target)] = (
+                            {'type': 'reverse', 'tasks': tasks,
+                             'task-defaults': {'requires': [dflt]}}, target)
     return out
 
 
